@@ -26,45 +26,135 @@ from prompt_toolkit.utils import get_cwidth
 
 ID = "C10"
 DRIVER = "drv_c10"
-PROPS = ["Ptk.Props.C10", "Ptk.Props.C10Copy", "Ptk.Props.C10Diff", "Ptk.Props.C10Tok", "Ptk.Props.C10Stream"]
+PROPS = ["Ptk.Props.C10", "Ptk.Props.C10Copy", "Ptk.Props.C10Diff", "Ptk.Props.C10Tok", "Ptk.Props.C10Stream",
+         "Ptk.Props.C10Bytes", "Ptk.Props.C10Wire", "Ptk.Props.C10Grammar", "Ptk.Props.C10Out", "Ptk.Props.C10Final"]
+ANCHORS = ["src/prompt_toolkit/layout/screen.py", "src/prompt_toolkit/output/vt100.py",
+           "src/prompt_toolkit/output/plain_text.py", "src/prompt_toolkit/output/flush_stdout.py",
+           "src/prompt_toolkit/renderer.py", "src/prompt_toolkit/layout/containers.py",
+           "src/prompt_toolkit/layout/controls.py", "src/prompt_toolkit/shortcuts/prompt.py",
+           "src/prompt_toolkit/patch_stdout.py", "src/prompt_toolkit/formatted_text/utils.py",
+           "src/prompt_toolkit/utils.py", "src/prompt_toolkit/layout/utils.py"]
+#: functions of /repo whose bodies the Lean model follows line by line AND the correspondence exercises
+MODELLED = {
+    "src/prompt_toolkit/layout/screen.py": ["Char.__init__", "get_display_width"],
+    "src/prompt_toolkit/utils.py": ["_CharSizesCache.__missing__", "get_cwidth"],
+    "src/prompt_toolkit/layout/containers.py": ["Window._copy_body", "Window._copy_body.copy",
+                                                "Window._copy_body.copy_line"],
+    "src/prompt_toolkit/layout/utils.py": ["explode_text_fragments"],
+    "src/prompt_toolkit/formatted_text/utils.py": ["fragment_list_to_text", "fragment_list_width"],
+    "src/prompt_toolkit/renderer.py": ["_output_screen_diff", "_output_screen_diff.reset_attributes",
+                                       "_output_screen_diff.move_cursor", "_output_screen_diff.output_char",
+                                       "_output_screen_diff.get_max_column_index", "print_formatted_text",
+                                       "Renderer.reset", "Renderer.erase"],
+    "src/prompt_toolkit/output/vt100.py": [
+        "Vt100_Output.write", "Vt100_Output.write_raw", "Vt100_Output.flush", "Vt100_Output.set_title",
+        "Vt100_Output.clear_title", "Vt100_Output.erase_screen", "Vt100_Output.enter_alternate_screen",
+        "Vt100_Output.quit_alternate_screen", "Vt100_Output.enable_mouse_support",
+        "Vt100_Output.disable_mouse_support", "Vt100_Output.erase_end_of_line", "Vt100_Output.erase_down",
+        "Vt100_Output.reset_attributes", "Vt100_Output.disable_autowrap", "Vt100_Output.enable_autowrap",
+        "Vt100_Output.enable_bracketed_paste", "Vt100_Output.disable_bracketed_paste",
+        "Vt100_Output.reset_cursor_key_mode", "Vt100_Output.cursor_goto", "Vt100_Output.cursor_up",
+        "Vt100_Output.cursor_down", "Vt100_Output.cursor_forward", "Vt100_Output.cursor_backward",
+        "Vt100_Output.hide_cursor", "Vt100_Output.show_cursor", "Vt100_Output.set_cursor_shape",
+        "Vt100_Output.reset_cursor_shape", "Vt100_Output.ask_for_cpr", "Vt100_Output.bell"],
+    "src/prompt_toolkit/output/plain_text.py": ["PlainTextOutput.write", "PlainTextOutput.write_raw",
+                                                "PlainTextOutput.flush"],
+    "src/prompt_toolkit/output/flush_stdout.py": ["flush_stdout"],
+    "src/prompt_toolkit/shortcuts/prompt.py": ["PromptSession._dumb_prompt",
+                                               "PromptSession._dumb_prompt.on_text_changed"],
+    "src/prompt_toolkit/patch_stdout.py": ["StdoutProxy._write_and_flush.write_and_flush"],
+}
 LEVEL_TEXT = (
-    "Lean 4 theorems over an executable model of the display path: Char.__init__ over ANY display table "
-    "satisfying decidable side conditions (re-decided by the kernel on the regenerated Char.display_mappings) "
-    "never yields a control character for any Unicode scalar; the zero-width merge and the whole "
-    "Window._copy_body keep every screen cell control-free; _output_screen_diff sends cell text only through "
-    "the escaping writer and only zero-width escapes raw; Vt100_Output.write never emits ESC; the tokenised "
-    "output stream has no control token that is not renderer-generated; tied to /repo on every run by a "
-    "differential correspondence (every code point, copy_body, diff, print) and an end-to-end oracle")
+    "Lean 4 theorems over an executable model of the whole display path, from characters to the BYTES on the "
+    "wire and back through the terminal's decoder. Text is a list of CODE POINTS (any natural number: lone "
+    "surrogates U+D800-DFFF included). Proved for all inputs: Char.__init__ over ANY display table satisfying "
+    "decidable side conditions (re-decided by the kernel on the regenerated Char.display_mappings) never yields "
+    "a control character; the zero-width merge and the whole Window._copy_body keep every screen cell "
+    "control-free; _output_screen_diff sends cell text only through the escaping writer and only zero-width "
+    "escapes raw; Vt100_Output.write never emits ESC; the _buffer / flush / flush_stdout / "
+    "encode(enc,'replace') stage, for UTF-8 (written-out encoder + streaming decoder, round trip proved) and "
+    "every regenerated single-byte code page (ascii, latin-1, iso8859-15, cp1252, cp437, cp850, koi8-r, "
+    "mac-roman; any table satisfying decidable side conditions), never changes what a terminal of that "
+    "encoding reads except that unencodable characters (lone surrogates, characters outside the code page) "
+    "become '?': no stray byte, no raw C1 byte, flush boundaries irrelevant; the output grammar (C0/C1, CSI, "
+    "ESC and string sequences) is unambiguous (tokens prefix-free, at most one parse) and the tokenizer "
+    "computes that parse; capstone hostile_content_unique_reading: for any content and any lawful codec the "
+    "decoded byte stream has exactly one reading and its control tokens are exactly the renderer's own. Also "
+    "modelled and proved: every other emitter of Vt100_Output and Renderer.reset/erase (pure-ASCII sentences "
+    "of the grammar for every amount/position/state), set_title, the dumb-terminal prompt, patch_stdout "
+    "raw/safe, print_formatted_text on Vt100_Output and PlainTextOutput. Tied to /repo on every run by "
+    "regenerated tables (display table, emitter strings, code pages, probes), a differential correspondence "
+    "(every code point incl. surrogates through Char and through every codec, copy_body, diff, print, real "
+    "binary streams with every error handler, CPython's decoders vs the model's) and an end-to-end oracle on "
+    "text streams and on byte streams")
 LEVEL_NOTE = ("trusted: Lean kernel, axioms propext/Classical.choice/Quot.sound only; the hand-written model "
               "(validated by the correspondence, not proved equal to the Python); wcwidth only by "
-              "correspondence; terminal semantics (which byte strings a terminal acts on) is the tokenizer's")
-RULE = ("Char(c) for every code point (thorough) / stratified sample incl. all of U+0000-33FF and every wcwidth "
-        "range boundary (quick); multi-character cell strings; Vt100_Output.write on hostile strings; "
-        "print_formatted_text on hostile fragments; Window._copy_body and _output_screen_diff on hostile "
-        "fragment lines (wrap, prefixes, scroll, zero-width escapes, wide/zero-width characters); end-to-end "
-        "renders of a real PromptSession and a full-screen Application; a case is non-trivial when its "
-        "content contains at least one control character or zero-width escape")
+              "correspondence; terminal semantics = (a) decode the byte stream in the stream's encoding "
+              "(model decoder correspondence-checked against CPython's), (b) act on the control tokens of the "
+              "ECMA-48 grammar (unambiguity proved; that real terminals implement this grammar is assumed)")
+RULE = ("Char(c) for every code point incl. lone surrogates (thorough) / stratified sample incl. all of U+0000-33FF, "
+        "all surrogates and every wcwidth range boundary (quick); multi-character cell strings; Vt100_Output.write; "
+        "print_formatted_text (Vt100_Output and PlainTextOutput; text and binary streams); Window._copy_body and "
+        "_output_screen_diff on hostile fragment lines (wrap, prefixes, scroll, zero-width escapes, wide/zero-width "
+        "characters, surrogates), a quarter of them on real binary streams; flush_stdout over real TextIOWrapper/"
+        "BytesIO streams with encoding x errors in {strict, replace, surrogateescape, backslashreplace, ignore, "
+        "xmlcharrefreplace, namereplace, surrogatepass} and over minimal stream objects with/without "
+        "encoding/buffer; every code point through every codec; the model's terminal decoders vs CPython's on "
+        "well-formed and ill-formed byte strings; _buffer op sequences; the grammar recognisers/parser vs an "
+        "independent regex form; every emitter, Renderer.reset/erase in all flag combinations; set_title; the real "
+        "_dumb_prompt; StdoutProxy._write_and_flush; end-to-end renders of a real PromptSession and a full-screen "
+        "Application (half of them on binary streams, surrogates in buffer, prompt, toolbar, completion display/"
+        "meta); a case is non-trivial when its content contains a control character, NBSP or a lone surrogate")
 EXHAUSTIVE = True
 EXHAUSTIVE_SCOPE = {
-    "quick": "Char(c): all code points U+0000-33FF + all wcwidth range boundaries + 40k random; "
-             "copy_body: all lines over a 7-symbol alphabet up to length 3 x widths 1-4 x wrap on/off",
-    "thorough": "Char(c): every code point U+0000-10FFFF (surrogates: oracle only); "
-                "copy_body: all lines over a 7-symbol alphabet up to length 4 x widths 1-4 x wrap on/off"}
-TRUSTED = ["harness/c10.py compares (char, style, width) of Char, buffered output text and write/write_raw pieces",
-           "Ptk/Model/C10*.lean are hand translations of Char.__init__, _copy_body, _output_screen_diff, "
-           "Vt100_Output emitters and print_formatted_text (correspondence-checked)",
-           "harness/gen_c10.py prints Char.display_mappings, the emitter strings and wcwidth ranges faithfully"]
+    "quick": "Char(c): all code points U+0000-33FF + all 2048 surrogates + all wcwidth range boundaries + 40k random; "
+             "copy_body: all lines over a 7-symbol alphabet up to length 3 x widths 1-4 x wrap on/off; bytes: all "
+             "strings over an 8-symbol alphabet (ASCII, lone surrogate, C1, wide, ESC, Latin-1, euro, non-BMP) up to "
+             "length 2 x 9 codecs x 8 error handlers; U+0000-04FF + the code page's whole repertoire through every "
+             "codec; all write/write_raw/flush sequences up to length 3 on both output classes; Renderer.reset/erase: "
+             "all 8 flag combinations x leave_alternate_screen",
+    "thorough": "Char(c): every code point U+0000-10FFFF incl. surrogates; every code point through every one of the "
+                "9 codecs; copy_body: all lines over a 7-symbol alphabet up to length 4 x widths 1-4 x wrap on/off; "
+                "bytes: all strings over the 8-symbol alphabet up to length 3 x 9 codecs x 8 error handlers"}
+TRUSTED = ["harness/c10.py compares (char, style, width) of Char, buffered output text, write/write_raw pieces and the "
+           "bytes a real binary stream received",
+           "Ptk/Model/C10*.lean are hand translations of Char.__init__, _copy_body, _output_screen_diff, the "
+           "Vt100_Output / PlainTextOutput methods, flush_stdout, print_formatted_text, Renderer.reset/erase, "
+           "_dumb_prompt, StdoutProxy._write_and_flush (correspondence-checked)",
+           "harness/gen_c10.py prints Char.display_mappings, the emitter strings, wcwidth / isprintable ranges and "
+           "the code-page tables of the running interpreter faithfully"]
 ASSUMPTIONS = ["wcwidth of the running interpreter (regenerated table; theorems hold for every width function "
                "under ValuesWidthPos)",
                "style -> Attrs -> SGR escape code is a parameter (C19's domain); theorems assume each SGR code is "
-               "a complete control sequence, the oracle checks it on the real codes",
-               "a terminal acts only on the control tokens recognised by the tokenizer (ECMA-48 C0/C1/ESC forms)"]
-PARTIAL_SCOPE = ["windows/conemu outputs not modelled (Vt100_Output only)",
-                 "set_title, dumb-terminal prompt (_dumb_prompt) and patch_stdout raw mode are outside the anchors",
+               "a complete, pure-ASCII sentence of the grammar; the driver re-checks this on every real code it is given",
+               "the terminal decodes the byte stream with the encoding Python used (stdout.encoding) and acts only on "
+               "the control tokens of the ECMA-48 grammar (C0/C1, CSI, ESC, string sequences); a terminal whose "
+               "encoding differs from stdout.encoding is outside the claim",
+               "stateless ASCII-superset codecs only: UTF-8 and the 8 regenerated code pages (UTF-16/32, UTF-7, "
+               "ISO-2022 and EBCDIC code pages are outside the byte-level theorems)",
+               "the OSError branches of flush_stdout (EINTR / errno 0 swallowed) may drop part of one flush; they "
+               "add nothing"]
+PARTIAL_SCOPE = ["known finding: PromptSession._dumb_prompt (TERM=dumb/unknown) writes control characters of the prompt "
+                 "message and of typed text raw (only ESC is replaced): dumb_unmapped_injects / dumb_clean_partial; "
+                 "repair proposed (proposed_fixes/C10-dumb-prompt-controls.diff), full theorem dumb_mapped_full holds "
+                 "for the repaired code (probe Gen.C10.dumbPromptMaps)",
+                 "observation (outside the property's quantifier): Vt100_Output.set_title deletes only ESC and BEL, an "
+                 "8-bit ST (U+009C) in a title ends the OSC early: setTitle_st_injects / setTitle_one_token_partial; "
+                 "repair proposed (proposed_fixes/C10-set-title-controls.diff), setTitle_all holds for it",
+                 "Win32Output / ConEmuOutput / Windows10_Output: the modules assert sys.platform == 'win32' and load "
+                 "ctypes.windll at import, they cannot be imported or run here; Windows10_Output delegates to "
+                 "Vt100_Output (the modelled write/write_raw); Win32Output.write goes to WriteConsoleW on a console "
+                 "without VT processing; not modelled",
+                 "PlainTextOutput (stdout is not a terminal) does not escape by design: printPlain_adds_nothing only",
+                 "Renderer.render's prelude (alternate screen, bracketed paste, mouse, cursor key mode, cursor shape) "
+                 "and CPR requests: each emitter is modelled and proved (vtCall_ok), their sequencing inside render() "
+                 "is exercised end to end by the oracle only; StdoutProxy line buffering / threads are C20's domain",
                  "cursor line/column highlighting, digraph / pending-key display, fill_area restyling, menus and "
                  "ScrollablePane are exercised end to end by the oracle only (they rebuild cells from "
                  "existing cell text through _CHAR_CACHE: theorem mkCell_clean)",
-                 "lone surrogates: oracle only (not Lean Chars)",
+                 "explicitly marked zero-width escapes are the caller's: the byte-level capstone is stated for "
+                 "content without marked fragments (a marked payload with unencodable characters is altered by "
+                 "'replace' like any text)",
                  "bidi/format characters (U+202E, U+2028...) are not control characters of the property"]
 TECHNIQUE = "proof"
 
@@ -81,6 +171,11 @@ HOSTILE_SEQS = ["\x1b[31m", "\x1b[2J", "\x1b[6n", "\x1b[?1049h", "\x1b]0;EVIL\x0
                 "\x0e", "\x0f", "\x7f", "\xa0", "\x85", "\x00"]
 PRINTABLE = ["a", "b", "Z", " ", "~", "[", "?", "^", "<", "9", "世", "界", "́", "‍", "​",
              " ", "‮", "é", "\U0001F600", "\xad", "　", "\x9f", "\x80", "\x1f", "\x1b"]
+# lone surrogates: what os.fsdecode / os.listdir / sys.argv / surrogateescape input make of the raw bytes
+# 0x80..0xFF (U+DC80+b), plus the ends of the surrogate block and an unpaired "pair"
+SURROGATES = ["\udc9b", "\udc9d", "\udc90", "\udc9c", "\udc85", "\udc80", "\udc9f", "\udcff", "\udc1b",
+              "\ud800", "\udbff", "\udc00", "\udfff", "\ud83d\ude00", "\udc9b31m", "\udc9d0;pwned\udc9c",
+              "\udc90q\udc9c", "\udce4\udcb8"]
 
 
 def is_control(c: str) -> bool:
@@ -95,11 +190,13 @@ def has_control(s: str) -> bool:
 def rand_hostile(rng, n):
     out = []
     for _ in range(n):
-        k = rng.randrange(10)
+        k = rng.randrange(11)
         if k < 3:
             out.append(rng.choice(HOSTILE_SEQS))
         elif k < 5:
             out.append(chr(rng.choice(list(range(0x20)) + list(range(0x7F, 0xA1)))))
+        elif k == 10:
+            out.append(rng.choice(SURROGATES))
         else:
             out.append(rng.choice(PRINTABLE))
     return "".join(out)
@@ -124,11 +221,104 @@ class RecOutput(Vt100_Output):
         self.pieces.append(("r", "".join(self._buffer[n:])))
 
 
-def new_output(rows=24, cols=80, rec=True, depth=ColorDepth.DEPTH_8_BIT):
-    buf = io.StringIO()
+# ------------------------------------------------------------------ the byte level
+def codec_names():
+    """codec registry shared with the driver: index 0 = UTF-8, i+1 = the i-th regenerated code page"""
+    import gen_c10
+    return ["utf-8"] + list(gen_c10.CHARMAPS)
+
+
+def codec_index(name):
+    """index of the codec Python resolves the stream's encoding name to"""
+    import codecs
+    return codec_names().index(codecs.lookup(name).name)
+
+
+STREAM_ERRORS = ["strict", "replace", "surrogateescape", "backslashreplace", "ignore", "xmlcharrefreplace",
+                 "namereplace", "surrogatepass"]
+WIRE_ENCODINGS = ["utf-8", "UTF-8", "latin-1", "ascii", "ANSI_X3.4-1968", "cp1252", "iso8859-15", "cp437", "cp850",
+                  "koi8-r", "mac-roman"]
+
+
+def binary_stream(enc, errors):
+    """a real text stream over a real binary stream, as sys.stdout is"""
+    raw = io.BytesIO()
+    return io.TextIOWrapper(raw, encoding=enc, errors=errors, newline=""), raw
+
+
+def rand_wire(rng):
+    return {"enc": rng.choice(WIRE_ENCODINGS),
+            "errors": rng.choice(STREAM_ERRORS[:4] + STREAM_ERRORS[:3] + STREAM_ERRORS)}
+
+
+def terminal_view(data: bytes, enc: str):
+    """How a terminal that uses `enc` reads a byte stream (written independently of the model):
+    returns (text, stray) where `stray` lists the bytes that are not part of any character: bytes outside
+    a well-formed UTF-8 sequence, or undefined in the code page."""
+    import codecs
+    name = codecs.lookup(enc).name
+    stray = []
+    if name == "utf-8":
+        t = data.decode("utf-8", "surrogateescape")
+        out = []
+        for ch in t:
+            if 0xDC80 <= ord(ch) <= 0xDCFF:
+                stray.append(ord(ch) - 0xDC00)
+            else:
+                out.append(ch)
+        return "".join(out), stray
+    out = []
+    for b in data:
+        try:
+            out.append(bytes([b]).decode(name))
+        except UnicodeDecodeError:
+            stray.append(b)
+    return "".join(out), stray
+
+
+def ctrl_seq(s):
+    return [c for c in s if is_control(c)]
+
+
+def is_subseq(a, b):
+    it = iter(b)
+    return all(x in it for x in a)
+
+
+def check_wire(site, data: bytes, enc: str, text: str, v):
+    """the byte-level property for one stream: a terminal of that encoding must read the bytes as the text
+    (unencodable characters as '?'): no stray byte, no control character that the text did not contain, as
+    many characters as the text has.  Returns the terminal's view (or None after a violation)."""
+    seen, stray = terminal_view(data, enc)
+    if stray:
+        v.append({"signature": f"{site} | raw byte outside any character reached the terminal",
+                  "msg": f"encoding {enc}: bytes {[hex(b) for b in stray[:8]]} in {data[:80]!r} for text {text[:60]!r}"})
+        return None
+    if not is_subseq(ctrl_seq(seen), ctrl_seq(text)):
+        v.append({"signature": f"{site} | encoding created a control character",
+                  "msg": f"encoding {enc}: terminal reads {seen[:80]!r} for text {text[:60]!r}"})
+        return None
+    if len(seen) != len(text):
+        v.append({"signature": f"{site} | encoding changed the number of characters",
+                  "msg": f"encoding {enc}: terminal reads {seen[:80]!r} for text {text[:60]!r}"})
+        return None
+    return seen
+
+
+def new_output(rows=24, cols=80, rec=True, depth=ColorDepth.DEPTH_8_BIT, wire=None):
+    """a real Vt100_Output on a StringIO, or (wire = {"enc", "errors"}) on a real binary stream whose
+    `.errors` is configured as given; the second result has `.getvalue()` (str resp. bytes)"""
+    if wire is None:
+        stream = buf = io.StringIO()
+    else:
+        stream, buf = binary_stream(wire["enc"], wire["errors"])
     cls = RecOutput if rec else Vt100_Output
-    out = cls(buf, lambda: Size(rows=rows, columns=cols), term="xterm", default_color_depth=depth)
+    out = cls(stream, lambda: Size(rows=rows, columns=cols), term="xterm", default_color_depth=depth)
     return out, buf
+
+
+def enc_bytes(b: bytes) -> str:
+    return "s:" + ",".join(str(x) for x in b)
 
 
 _STYLE = None
@@ -299,7 +489,7 @@ def is_sur(cp):
 
 def ml_chars(case):
     st = enc_str(case["style"])
-    return [f"cell s:{cp} {st}" for cp in chunk_cps(case) if not is_sur(cp)]
+    return [f"cell s:{cp} {st}" for cp in chunk_cps(case)]
 
 
 def il_chars(case):
@@ -307,8 +497,6 @@ def il_chars(case):
     style = case["style"]
     use_cache = case.get("cache", False)
     for cp in chunk_cps(case):
-        if is_sur(cp):
-            continue
         ch = _CHAR_CACHE[chr(cp), style] if use_cache else Char(chr(cp), style)
         out.append(f"{enc_str(ch.char)} {enc_str(ch.style)} {ch.width}")
     return out
@@ -384,17 +572,31 @@ def or_write(case):
 
 
 def run_print(case):
+    """-> (output object, text stream, bytes or None)"""
     from prompt_toolkit.renderer import print_formatted_text
-    o, buf = new_output()
+    wire = case.get("wire")
+    o, buf = new_output(wire=wire)
     frs = [(s, t) for s, t in case["frags"]]
     print_formatted_text(o, frs, ui_style(), color_depth=ColorDepth.DEPTH_8_BIT)
-    return o, buf.getvalue()
+    if wire is None:
+        return o, buf.getvalue(), None
+    return o, "".join(p for _, p in o.pieces), buf.getvalue()
+
+
+def ml_wire_on(case):
+    w = case.get("wire")
+    return [] if w is None else [f"wire {codec_index(w['enc'])}"]
+
+
+def ml_wire_off(case):
+    return [] if case.get("wire") is None else ["wire N"]
 
 
 def ml_print(case):
     o, _ = new_output()
     env, _, _, _ = style_env(sorted({s for s, _ in case["frags"]}), o)
-    return [env, "print " + enc_list(case["frags"], lambda f: f"{enc_str(f[0])} {enc_str(f[1])}")]
+    return [env] + ml_wire_on(case) + \
+        ["print " + enc_list(case["frags"], lambda f: f"{enc_str(f[0])} {enc_str(f[1])}")] + ml_wire_off(case)
 
 
 def enc_pieces(pieces):
@@ -402,13 +604,22 @@ def enc_pieces(pieces):
 
 
 def il_print(case):
-    o, text = run_print(case)
-    return ["ok", enc_str(text) + " " + enc_pieces(o.pieces)]
+    o, text, data = run_print(case)
+    w = ["ok"] if data is not None else []
+    return ["ok"] + w + [enc_str(text) + " " + enc_pieces(o.pieces) + ("" if data is None else " " + enc_bytes(data))] + w
 
 
 def or_print(case):
-    o, text = run_print(case)
+    o, text, data = run_print(case)
     v = []
+    if data is not None:
+        seen = check_wire("print_formatted_text", data, case["wire"]["enc"], text, v)
+        if seen is not None:
+            # the safe print path at the byte level: every ESC the terminal reads was written raw
+            esc_raw = sum(p.count("\x1b") for k, p in o.pieces if k == "r")
+            if seen.count("\x1b") != esc_raw:
+                v.append({"signature": "print_formatted_text | ESC through the safe print path",
+                          "msg": f"{case['frags']!r} -> terminal reads {seen!r}"})
     zw = [t for s, t in case["frags"] if ZWE in s]
     esc_raw = sum(p.count("\x1b") for k, p in o.pieces if k == "r")
     if text.count("\x1b") != esc_raw:
@@ -463,7 +674,7 @@ def ml_render(case):
     cols, rows = case["size"]
     o, _ = new_output(rows, cols)
     env, _, _, _ = style_env(case_styles(case), o)
-    out = [env, "resetr"]
+    out = [env, "resetr"] + ml_wire_on(case)
     for fr in case["ops"]:
         out.append("newscreen")
         for cp in fr["copies"]:
@@ -477,7 +688,7 @@ def ml_render(case):
         if d:
             out.append("diff %s %s %d %d %d %d %s" % (enc_bool(d["is_done"]), enc_bool(d["full_screen"]), cols, rows,
                                                      d["cursor"][0], d["cursor"][1], enc_bool(d["show_cursor"])))
-    return out
+    return out + ml_wire_off(case)
 
 
 def dump_screen(screen):
@@ -514,9 +725,10 @@ def run_render(case):
     from prompt_toolkit.renderer import _output_screen_diff
 
     cols, rows = case["size"]
-    out, buf = new_output(rows, cols)
+    wire = case.get("wire")
+    out, buf = new_output(rows, cols, wire=wire)
     _, a4s, has, _ = style_env(case_styles(case), out)
-    lines_out = ["ok", "ok"]
+    lines_out = ["ok", "ok"] + (["ok"] if wire else [])
     screens, stream = [], []
     win = Window()
     app = _StubApp(win)
@@ -548,15 +760,16 @@ def run_render(case):
                                             d["is_done"], d["full_screen"], a4s, has,
                                             Size(rows=rows, columns=cols), prev_width)
             out.flush()
-            text = buf.getvalue()
+            data = buf.getvalue()
             buf.seek(0)
             buf.truncate()
             pieces = [p for p in out.pieces[n:] if p[1] != ""]
-            stream.append((text, out.pieces[n:]))
+            text = data if wire is None else "".join(p for _, p in out.pieces[n:])
+            stream.append((text, out.pieces[n:], None if wire is None else data))
             lines_out.append(f"{pos.x} {pos.y} {'N' if last is None else enc_str(last)} {enc_str(text)} "
-                             f"{enc_pieces(pieces)}")
+                             f"{enc_pieces(pieces)}" + ("" if wire is None else " " + enc_bytes(data)))
             prev, prev_width = screen, cols
-    return lines_out, screens, stream
+    return lines_out + (["ok"] if wire else []), screens, stream
 
 
 def il_render(case):
@@ -569,7 +782,14 @@ def or_render(case):
     for sc in screens:
         scan_screen("Window._copy_body", sc, v)
     zw = case_zwe(case)
-    for text, pieces in stream:
+    for text, pieces, data in stream:
+        if data is not None:
+            seen = check_wire("_output_screen_diff", data, case["wire"]["enc"], text, v)
+            if seen is None:
+                continue
+            # what the terminal reads must satisfy the stream property too
+            check_stream("_output_screen_diff (terminal view)", seen, None,
+                         [terminal_view(z.encode(case["wire"]["enc"], "replace"), case["wire"]["enc"])[0] for z in zw], v)
         check_stream("_output_screen_diff", text, pieces, zw, v)
     if not zw:
         for sc in screens:
@@ -612,6 +832,21 @@ def scan_screen(site, screen, v):
                 return
 
 
+def finish_stream(site, case, out, buf, zw, v):
+    """the property over everything a real output object sent: on a StringIO the text stream; on a binary
+    stream additionally the BYTES, read back the way a terminal of that encoding reads them"""
+    wire = case.get("wire")
+    if wire is None:
+        check_stream(site, buf.getvalue(), out.pieces, zw, v)
+        return
+    text = "".join(p for _, p in out.pieces)
+    check_stream(site, text, out.pieces, zw, v)
+    seen = check_wire(site, buf.getvalue(), wire["enc"], text, v)
+    if seen is not None:
+        zw2 = [terminal_view(z.encode(wire["enc"], "replace"), wire["enc"])[0] for z in zw]
+        check_stream(site + " (terminal view)", seen, None, zw2, v)
+
+
 def e2e_prompt(case):
     from prompt_toolkit import PromptSession
     from prompt_toolkit.application.current import set_app
@@ -626,7 +861,7 @@ def e2e_prompt(case):
     rows, cols = case.get("rows", 24), case.get("cols", 80)
 
     async def main():
-        out, buf = new_output(rows, cols)
+        out, buf = new_output(rows, cols, wire=case.get("wire"))
         kw = {}
         if case.get("toolbar") is not None:
             kw["bottom_toolbar"] = to_ft(case["toolbar"])
@@ -667,7 +902,7 @@ def e2e_prompt(case):
                 scan_screen("Renderer.render(prompt)", app.renderer._last_screen, v)
             app.renderer.render(app, app.layout, is_done=True)
             out.flush()
-            check_stream("Renderer.render(prompt)", buf.getvalue(), out.pieces, zw, v)
+            finish_stream("Renderer.render(prompt)", case, out, buf, zw, v)
 
     asyncio.run(main())
     return v
@@ -686,7 +921,7 @@ def e2e_full(case):
     rows, cols = case.get("rows", 20), case.get("cols", 60)
 
     async def main():
-        out, buf = new_output(rows, cols)
+        out, buf = new_output(rows, cols, wire=case.get("wire"))
         ta = TextArea(text=case["texts"][0], multiline=True, wrap_lines=case.get("wrap", False),
                       line_numbers=True, scrollbar=True)
         ftc = FormattedTextControl(to_ft(case["message"]))
@@ -709,7 +944,7 @@ def e2e_full(case):
                 scan_screen("Renderer.render(full screen)", app.renderer._last_screen, v)
             app.renderer.render(app, app.layout, is_done=True)
             out.flush()
-            check_stream("Renderer.render(full screen)", buf.getvalue(), out.pieces, zw, v)
+            finish_stream("Renderer.render(full screen)", case, out, buf, zw, v)
 
     asyncio.run(main())
     return v
@@ -954,6 +1189,672 @@ def gen_tok(rng):
     return {"kind": "tok", "s": "".join(parts)}
 
 
+# ------------------------------------------------------------------ byte-level kinds
+def _flush_real(stream, text):
+    from prompt_toolkit.output.flush_stdout import flush_stdout
+    flush_stdout(stream, text)
+
+
+def ml_enc(case):
+    return [f"enc {codec_index(e)} {enc_str(t)}" for e, _err, t in case["ops"]]
+
+
+def il_enc(case):
+    out = []
+    for e, err, t in case["ops"]:
+        st, raw = binary_stream(e, err)
+        _flush_real(st, t)
+        out.append(enc_bytes(raw.getvalue()))
+    return out
+
+
+def or_enc(case):
+    v = []
+    for e, err, t in case["ops"]:
+        st, raw = binary_stream(e, err)
+        _flush_real(st, t)
+        check_wire("flush_stdout", raw.getvalue(), e, t, v)
+        if v:
+            v[-1]["msg"] += f" [stream errors={err!r}]"
+            break
+    return v
+
+
+def encchars_text(case):
+    return "".join(chr(cp) for cp in chunk_cps(case))
+
+
+def ml_encchars(case):
+    return [f"enc {codec_index(case['enc'])} {enc_str(encchars_text(case))}"]
+
+
+def il_encchars(case):
+    st, raw = binary_stream(case["enc"], case["errors"])
+    _flush_real(st, encchars_text(case))
+    return [enc_bytes(raw.getvalue())]
+
+
+def or_encchars(case):
+    v = []
+    t = encchars_text(case)
+    st, raw = binary_stream(case["enc"], case["errors"])
+    _flush_real(st, t)
+    check_wire("flush_stdout", raw.getvalue(), case["enc"], t, v)
+    if v:
+        # narrow the message down to the first offending character
+        for ch in t:
+            st, raw = binary_stream(case["enc"], case["errors"])
+            _flush_real(st, ch)
+            v1 = []
+            check_wire("flush_stdout", raw.getvalue(), case["enc"], ch, v1)
+            if v1:
+                v1[0]["msg"] += f" [stream errors={case['errors']!r}]"
+                return v1
+    return v
+
+
+def ml_decode(case):
+    return [f"decode {codec_index(e)} {enc_bytes(bytes(b))}" for e, b in case["ops"]]
+
+
+def il_decode(case):
+    """CPython's own decoder as the reference for what a terminal of that encoding reads"""
+    import codecs
+    out = []
+    for e, b in case["ops"]:
+        name = codecs.lookup(e).name
+        items = []
+        if name == "utf-8":
+            for ch in bytes(b).decode("utf-8", "surrogateescape"):
+                o = ord(ch)
+                items.append(f"x{o - 0xDC00}" if 0xDC80 <= o <= 0xDCFF else f"c{o}")
+        else:
+            for x in b:
+                try:
+                    items.append("c%d" % ord(bytes([x]).decode(name)))
+                except UnicodeDecodeError:
+                    items.append(f"x{x}")
+        out.append(enc_list(items))
+    return out
+
+
+class _AttrStream:
+    """the least a stream needs for flush_stdout; attributes present only as asked"""
+
+    def __init__(self, has_enc, has_buf, enc, errors):
+        self.raw = io.BytesIO()
+        self.text = []
+        if has_enc:
+            self.encoding = enc
+        if has_buf:
+            self.buffer = self.raw
+        self.errors = errors
+
+    def write(self, s):
+        self.text.append(s)
+
+    def flush(self):
+        pass
+
+
+def _flush_case(op):
+    he, hb, e, err, t, real = op
+    if real:  # a real TextIOWrapper (has both attributes) or a real StringIO (no buffer)
+        if hb:
+            st, raw = binary_stream(e, err)
+            _flush_real(st, t)
+            return "b", raw.getvalue(), None
+        sio = io.StringIO()
+        _flush_real(sio, t)
+        return "t", None, sio.getvalue()
+    st = _AttrStream(he, hb, e, err)
+    _flush_real(st, t)
+    if st.raw.getvalue() or (he and hb):
+        return "b", st.raw.getvalue(), "".join(st.text)
+    return "t", None, "".join(st.text)
+
+
+def ml_flush(case):
+    out = []
+    for he, hb, e, err, t, real in case["ops"]:
+        if real:
+            he = True
+        out.append(f"flush {enc_bool(he)} {enc_bool(hb)} {codec_index(e) if e else 'N'} {enc_str(t)}")
+    return out
+
+
+def il_flush(case):
+    out = []
+    for op in case["ops"]:
+        k, data, text = _flush_case(op)
+        out.append("b " + enc_bytes(data) if k == "b" else "t " + enc_str(text))
+    return out
+
+
+def or_flush(case):
+    v = []
+    for op in case["ops"]:
+        he, hb, e, err, t, real = op
+        k, data, text = _flush_case(op)
+        if k == "b":
+            if text:
+                v.append({"signature": "flush_stdout | wrote both text and bytes", "msg": repr(op)})
+            check_wire("flush_stdout", data, e or "utf-8", t, v)
+        elif text != t:
+            v.append({"signature": "flush_stdout | text stream received something else than the data",
+                      "msg": f"{t!r} -> {text!r}"})
+        if v:
+            break
+    return v
+
+
+class _ChunkStream:
+    """text-only stream that records every write call (one per flush_stdout)"""
+
+    def __init__(self):
+        self.chunks = []
+
+    def write(self, s):
+        self.chunks.append(s)
+
+    def flush(self):
+        pass
+
+
+def _run_out(case):
+    from prompt_toolkit.output.plain_text import PlainTextOutput
+    st = _ChunkStream()
+    if case["vt"]:
+        o = Vt100_Output(st, lambda: Size(rows=24, columns=80), term="xterm")
+    else:
+        o = PlainTextOutput(st)
+    for op in case["ops"]:
+        if op[0] == "w":
+            o.write(op[1])
+        elif op[0] == "r":
+            o.write_raw(op[1])
+        else:
+            o.flush()
+    return list(o._buffer), st.chunks
+
+
+def ml_out(case):
+    def f(op):
+        return "f" if op[0] == "f" else f"{op[0]} {enc_str(op[1])}"
+    return ["out %s %s" % (enc_bool(case["vt"]), enc_list(case["ops"], f))]
+
+
+def il_out(case):
+    buf, chunks = _run_out(case)
+    return [enc_list(buf, enc_str) + " " + enc_list(chunks, enc_str)]
+
+
+def or_out(case):
+    buf, chunks = _run_out(case)
+    got = "".join(chunks) + "".join(buf)
+    raw = "".join(op[1] for op in case["ops"] if op[0] == "r")
+    safe = "".join(op[1] for op in case["ops"] if op[0] == "w")
+    v = []
+    if len(got) != len(raw) + len(safe):
+        v.append({"signature": "Output buffer | pieces lost or duplicated across flush", "msg": repr(case["ops"])[:300]})
+    if case["vt"] and got.count("\x1b") != raw.count("\x1b"):
+        v.append({"signature": "Vt100_Output.write | ESC in output", "msg": repr(case["ops"])[:300]})
+    exp, i = [], 0
+    for op in case["ops"]:
+        if op[0] != "f":
+            exp.append(op[1] if (op[0] == "r" or not case["vt"]) else op[1].replace("\x1b", "?"))
+    if got != "".join(exp):
+        v.append({"signature": "Output buffer | stream is not the pieces in call order", "msg": repr(case["ops"])[:300]})
+    return v
+
+
+# ------------------------------------------------------------------ the output grammar (independent regex form)
+TOKEN_RE = re.compile(
+    "(?:\x1b\\[|\x9b)[0-?]*[ -/]*[@-~]"                      # CSI
+    "|\x1b[\\]PX^_][^\x07\x9c\x1b]*(?:\x07|\x9c|\x1b\\\\)"    # OSC / DCS / SOS / PM / APC ... BEL | ST | ESC \
+    "|\x1b[ -/]+[0-~]"                                        # ESC with intermediates
+    "|\x1b(?![\\[\\]PX^_])[0-~]"                              # two-character ESC sequence
+    "|[\x00-\x1a\x1c-\x1f\x7f-\x9a\x9c-\x9f]",                # single C0 / DEL / C1 control
+    re.S)
+
+
+def py_parse(s):
+    """the (unique) parse of a stream into control tokens and non-control characters, or None"""
+    out, i = [], 0
+    while i < len(s):
+        if not is_control(s[i]):
+            out.append(("c", s[i]))
+            i += 1
+            continue
+        m = TOKEN_RE.match(s, i)
+        if not m:
+            return None
+        out.append(("t", m.group(0)))
+        i = m.end()
+    return out
+
+
+def ml_gram(case):
+    return [f"istok {enc_str(t)}" for t in case["toks"]] + [f"parse {enc_str(t)}" for t in case["streams"]]
+
+
+def il_gram(case):
+    out = [enc_bool(TOKEN_RE.fullmatch(t) is not None) for t in case["toks"]]
+    for t in case["streams"]:
+        p = py_parse(t)
+        out.append("N" if p is None else enc_list(p, lambda x: f"c{ord(x[1])}" if x[0] == "c" else "t " + enc_str(x[1])))
+    return out
+
+
+def or_gram(case):
+    """the oracle's tokenizer and the grammar must agree on every well-formed stream"""
+    v = []
+    for t in case["streams"]:
+        p = py_parse(t)
+        if p is not None and [x[1] for x in p if x[0] == "t"] != [tk for k, tk in tokenize(t) if k == "c"]:
+            v.append({"signature": "output grammar | tokenizer and grammar disagree on a well-formed stream",
+                      "msg": repr(t)})
+            break
+    return v
+
+
+def mutate(rng, t):
+    if not t or rng.random() < 0.3:
+        return t
+    k = rng.randrange(4)
+    i = rng.randrange(len(t))
+    if k == 0:
+        return t[:i] + t[i + 1:]
+    if k == 1:
+        return t[:i] + rng.choice(["\x1b", "[", "0", " ", "m", "\x07", "\x9c", "\\", "a", "\x9b", "]", "?", "~", "\x7f", "/"]) + t[i:]
+    if k == 2:
+        return t[:i]
+    return t + rng.choice(GEN_SEQS)
+
+
+def gen_gram(rng):
+    toks = [mutate(rng, rng.choice(GEN_SEQS + ["\x1b(0", "\x1b#8", "\x1bc", "\x9b31m", "\x1bPq\x1b\\", "\x1b_G\x9c",
+                                               "\x1b[?1;2$y", "\x1b[ q", "\x07", "\x9c", "\x1b\x1b\\"]))
+            for _ in range(8)]
+    streams = [gen_tok(rng)["s"] for _ in range(3)]
+    wf = []
+    for _ in range(rng.randrange(0, 8)):
+        wf.append(rng.choice(GEN_SEQS) if rng.random() < 0.5 else
+                  "".join(rng.choice(PRINTABLE[:19] + SURROGATES[:4]) for _ in range(rng.randrange(1, 5))))
+    streams.append("".join(wf))
+    return {"kind": "gram", "toks": toks, "streams": streams}
+
+
+# ------------------------------------------------------------------ the other writers (emitters, title, dumb prompt, patch_stdout)
+CALL_NAMES = ["es", "ea", "qa", "em", "dm", "eb", "db", "rk", "cpr", "bell", "hide", "show", "rshape", "eol", "ed",
+              "ra", "dw", "ew", "ctitle"]
+
+
+def enc_call(c):
+    if c[0] == "title":
+        return "title " + enc_str(c[1])
+    return " ".join(str(x) for x in c)
+
+
+def apply_call(o, c):
+    from prompt_toolkit.cursor_shapes import CursorShape
+    k = c[0]
+    simple = {"es": o.erase_screen, "ea": o.enter_alternate_screen, "qa": o.quit_alternate_screen,
+              "em": o.enable_mouse_support, "dm": o.disable_mouse_support, "eb": o.enable_bracketed_paste,
+              "db": o.disable_bracketed_paste, "rk": o.reset_cursor_key_mode, "cpr": o.ask_for_cpr, "bell": o.bell,
+              "hide": o.hide_cursor, "show": o.show_cursor, "rshape": o.reset_cursor_shape,
+              "eol": o.erase_end_of_line, "ed": o.erase_down, "ra": o.reset_attributes, "dw": o.disable_autowrap,
+              "ew": o.enable_autowrap, "ctitle": o.clear_title}
+    if k in simple:
+        simple[k]()
+    elif k == "goto":
+        o.cursor_goto(c[1], c[2])
+    elif k == "up":
+        o.cursor_up(c[1])
+    elif k == "down":
+        o.cursor_down(c[1])
+    elif k == "fwd":
+        o.cursor_forward(c[1])
+    elif k == "back":
+        o.cursor_backward(c[1])
+    elif k == "shape":
+        o.set_cursor_shape(list(CursorShape)[c[1]])
+    elif k == "title":
+        o.set_title(c[1])
+    else:
+        raise ValueError(k)
+
+
+def _calls_output(case):
+    sio = io.StringIO()
+    o = Vt100_Output(sio, lambda: Size(rows=24, columns=80), term="linux" if case.get("silent") else "xterm",
+                     enable_bell=case.get("bell", True))
+    return o, sio
+
+
+def run_calls(case):
+    o, sio = _calls_output(case)
+    for c in case["ops"]:
+        apply_call(o, c)
+    o.flush()
+    return sio.getvalue()
+
+
+def ml_calls(case):
+    return ["calls %s %s %s" % (enc_bool(case.get("bell", True)), enc_bool(case.get("silent", False)),
+                                enc_list(case["ops"], enc_call))]
+
+
+def il_calls(case):
+    return [enc_str(run_calls(case))]
+
+
+TITLE_TOKEN = re.compile("\x1b\\]2;[^\x00-\x1f\x7f-\x9f]*\x07", re.S)
+
+
+def or_calls(case):
+    """everything an emitter writes is the renderer's own repertoire: complete control tokens, pure ASCII
+    (the title text itself excepted), nothing between them.  (Control characters INSIDE a title are not
+    content of the property's quantifier; the correspondence replays them: corpus/C10/title-st-injects.json)"""
+    text = run_calls(case)
+    v = []
+    titles = [c[1] for c in case["ops"] if c[0] == "title"]
+    if any(has_control(t.replace("\x1b", "").replace("\x07", "")) for t in titles):
+        return v
+    for kind, tk in tokenize(text):
+        if kind == "t":
+            v.append({"signature": "Vt100_Output emitters | text outside a control sequence", "msg": repr(text)[:300]})
+            break
+        if not (REPERTOIRE.fullmatch(tk) or TITLE_TOKEN.fullmatch(tk) or tk in ("\x07",)):
+            v.append({"signature": "Vt100_Output emitters | control token outside the renderer's repertoire",
+                      "msg": f"{tk!r} in {text[:200]!r}"})
+            break
+    if not titles and not text.isascii():
+        v.append({"signature": "Vt100_Output emitters | non-ASCII emitter output", "msg": repr(text)[:300]})
+    return v
+
+
+def run_renderer(case):
+    from prompt_toolkit.renderer import Renderer
+    sio = io.StringIO()
+    o = Vt100_Output(sio, lambda: Size(rows=24, columns=80), term="xterm")
+    r = Renderer(ui_style(), o, full_screen=False)   # the constructor runs reset(_scroll=True)
+    for c in case["pre"]:
+        apply_call(o, c)
+    o.flush()
+    sio.seek(0)
+    sio.truncate()
+    r._in_alternate_screen, r._mouse_support_enabled, r._bracketed_paste_enabled = case["flags"]
+    r._cursor_pos = Point(x=case["pos"][0], y=case["pos"][1])
+    if case["erase"]:
+        r.erase(leave_alternate_screen=case["leave"])
+    else:
+        r.reset(leave_alternate_screen=case["leave"])
+    return sio.getvalue(), (r._in_alternate_screen, r._mouse_support_enabled, r._bracketed_paste_enabled)
+
+
+def ml_renderer(case):
+    pre = [["rshape"], ["show"]] + case["pre"]   # what the constructor's reset() did to the output object
+    return ["renderer %s %s %s %s %d %d %s %s" % (
+        enc_bool(case["erase"]), enc_bool(case["flags"][0]), enc_bool(case["flags"][1]), enc_bool(case["flags"][2]),
+        case["pos"][0], case["pos"][1], enc_bool(case["leave"]), enc_list(pre, enc_call))]
+
+
+def il_renderer(case):
+    text, fl = run_renderer(case)
+    return [f"{enc_str(text)} {enc_bool(fl[0])} {enc_bool(fl[1])} {enc_bool(fl[2])}"]
+
+
+def or_renderer(case):
+    text, _ = run_renderer(case)
+    v = []
+    for kind, tk in tokenize(text):
+        if kind == "t" or not REPERTOIRE.fullmatch(tk):
+            v.append({"signature": "Renderer.reset/erase | output outside the renderer's repertoire",
+                      "msg": f"{tk!r} in {text!r}"})
+            break
+    return v
+
+
+def run_dumb(case):
+    """the real PromptSession._dumb_prompt on a real Vt100_Output(term='dumb'); returns what each event wrote"""
+    from prompt_toolkit import PromptSession
+    from prompt_toolkit.application.current import set_app
+    from prompt_toolkit.document import Document
+    from prompt_toolkit.input import DummyInput
+
+    res = []
+
+    async def main():
+        if case.get("wire"):
+            stream, raw = binary_stream(case["wire"]["enc"], case["wire"]["errors"])
+        else:
+            stream = raw = io.StringIO()
+        out = RecOutput(stream, lambda: Size(rows=24, columns=80), term="dumb")
+        s = PromptSession(message=to_ft(case["message"]), input=DummyInput(), output=out)
+        out.flush()
+        n = len(out.pieces)
+        with s._dumb_prompt(s.message) as app:
+            res.append("".join(p for _, p in out.pieces[n:]))
+            n = len(out.pieces)
+            with set_app(app):
+                for text, cur in case["docs"]:
+                    s.default_buffer.set_document(Document(text, min(cur, len(text))), bypass_readonly=True)
+                    res.append("".join(p for _, p in out.pieces[n:]))
+                    n = len(out.pieces)
+        res.append("".join(p for _, p in out.pieces[n:]))
+        return out, raw
+
+    out, raw = asyncio.run(main())
+    return res, out, raw
+
+
+def dumb_events(case):
+    """the events the model is given: a text-change event only fires when the text really changed"""
+    evs = [("s", to_ft(case["message"]))]
+    prev = ""
+    for text, cur in case["docs"]:
+        cur = min(cur, len(text))
+        if text != prev:
+            evs.append(("c", text[:cur]))
+        else:
+            evs.append(None)
+        prev = text
+    evs.append(("f",))
+    return evs
+
+
+def ml_dumb(case):
+    def f(e):
+        if e[0] == "s":
+            ft = e[1]
+            frs = [["", ft]] if isinstance(ft, str) else ft
+            return "s " + enc_frags(frs)
+        if e[0] == "c":
+            return "c " + enc_str(e[1])
+        return "f"
+    return ["dumb " + enc_list([e for e in dumb_events(case) if e is not None], f)]
+
+
+def il_dumb(case):
+    res, _, _ = run_dumb(case)
+    evs = dumb_events(case)
+    out = []
+    for e, r in zip(evs, res):
+        if e is None:
+            if r != "":
+                return ["impl: output without a text change: " + repr(r)]
+            continue
+        out.append(r)
+    return [enc_list(out, enc_str)]
+
+
+def or_dumb(case):
+    """the property on the dumb-terminal path: the prompt message and the typed text must not put a control
+    character on the terminal (newlines of the text itself and the final CR LF are the prompt's own)"""
+    res, out, raw = run_dumb(case)
+    v = []
+    text = "".join(res)
+    if "\x1b" in text:
+        v.append({"signature": "PromptSession._dumb_prompt | ESC through the safe writer", "msg": repr(text)[:300]})
+    body = "".join(res[:-1]).replace("\n", "")
+    if has_control(body):
+        v.append({"signature": "PromptSession._dumb_prompt | control character written to a dumb terminal",
+                  "msg": f"message {case['message']!r} docs {case['docs']!r} -> {text!r}"})
+    if res[-1] != "\r\n":
+        v.append({"signature": "PromptSession._dumb_prompt | line ending", "msg": repr(res[-1])})
+    if case.get("wire"):
+        full = "".join(p for _, p in out.pieces)
+        check_wire("PromptSession._dumb_prompt", raw.getvalue(), case["wire"]["enc"], full, v)
+    return v
+
+
+def run_proxy(case):
+    from prompt_toolkit.application.current import create_app_session
+    from prompt_toolkit.input import DummyInput
+    from prompt_toolkit.patch_stdout import StdoutProxy
+    out, buf = new_output()
+    with create_app_session(input=DummyInput(), output=out):
+        p = StdoutProxy(raw=case["raw"])
+        try:
+            p._write_and_flush(None, case["text"])
+        finally:
+            p.close()
+    return out, buf.getvalue()
+
+
+def ml_proxy(case):
+    return [f"proxy {enc_bool(case['raw'])} {enc_str(case['text'])}"]
+
+
+def il_proxy(case):
+    out, text = run_proxy(case)
+    return [enc_str(text) + " " + enc_pieces(out.pieces)]
+
+
+def or_proxy(case):
+    out, text = run_proxy(case)
+    v = []
+    if not case["raw"]:
+        if text.count("\x1b") != sum(p.count("\x1b") for k, p in out.pieces if k == "r"):
+            v.append({"signature": "patch_stdout | ESC through the safe print path", "msg": f"{case['text']!r} -> {text!r}"})
+        if any(k == "r" and not REPS.fullmatch(p) for k, p in out.pieces if p):
+            v.append({"signature": "patch_stdout | raw write outside the renderer's repertoire", "msg": repr(out.pieces)[:300]})
+    if "".join(p for _, p in out.pieces) != text:
+        v.append({"signature": "patch_stdout | output bypassed write/write_raw", "msg": repr(text)[:300]})
+    return v
+
+
+def rand_call(rng, titles=True):
+    k = rng.randrange(12)
+    if k < 5:
+        return [rng.choice(CALL_NAMES)]
+    if k == 5:
+        return ["goto", rng.choice([0, 1, 7, 24, 120, 3000]), rng.choice([0, 1, 9, 80, 1000])]
+    if k < 9:
+        return [rng.choice(["up", "down", "fwd", "back"]), rng.choice([0, 1, 2, 3, 9, 10, 11, 99, 100, 12345])]
+    if k == 9:
+        return ["shape", rng.randrange(0, 7)]
+    if k == 10 and titles:
+        return ["title", rng.choice(["", "hi", "vim - a.txt", "世界 é", "a\x1bb\x07c", "\udc9bx", "x" * 40])]
+    return [rng.choice(["hide", "show", "rshape"])]
+
+
+def gen_out_writers(tier, rng):
+    quick = tier == "quick"
+    # every emitter once, every amount form, every shape, in both states
+    yield {"kind": "calls", "ops": [[n] for n in CALL_NAMES] + [[n] for n in CALL_NAMES]}
+    yield {"kind": "calls", "ops": [[d, n] for d in ("up", "down", "fwd", "back") for n in (0, 1, 2, 9, 10, 99, 100, 1234567)]}
+    yield {"kind": "calls", "ops": [["shape", i] for i in range(7)] + [["rshape"], ["rshape"], ["shape", 0], ["rshape"]]}
+    yield {"kind": "calls", "ops": [["goto", r, c] for r in (0, 1, 10, 255) for c in (0, 1, 80, 1000)]}
+    yield {"kind": "calls", "silent": True, "ops": [["title", "x"], ["ctitle"], ["bell"]]}
+    yield {"kind": "calls", "bell": False, "ops": [["bell"], ["title", "x"], ["ctitle"]]}
+    for _ in range(80 if quick else 3000):
+        yield {"kind": "calls", "bell": rng.random() < 0.8, "silent": rng.random() < 0.2,
+               "ops": [rand_call(rng) for _ in range(rng.randrange(0, 12))]}
+    # titles with hostile text: the model reproduces what the real filter leaves in
+    for _ in range(40 if quick else 2000):
+        yield {"kind": "calls", "ops": [["title", rand_hostile(rng, rng.randrange(0, 8))]]}
+    # Renderer.reset / erase: all flag combinations
+    for erase in (False, True):
+        for fl in range(8):
+            for leave in (False, True):
+                yield {"kind": "renderer", "erase": erase, "flags": [bool(fl & 1), bool(fl & 2), bool(fl & 4)],
+                       "leave": leave, "pos": [rng.choice([0, 1, 2, 17]), rng.choice([0, 1, 2, 11])],
+                       "pre": [rand_call(rng, titles=False) for _ in range(rng.randrange(0, 4))]}
+    # the dumb-terminal prompt
+    for msg in ("> ", "\x1b[31m> ", [["", "a"], [ZWE, "\x1b]133;A\x07"], ["class:x", "b\n> "]]):
+        yield {"kind": "dumb", "message": msg, "docs": [["a", 1], ["ab", 2], ["ab", 1], ["a\x1bb", 2], ["", 0]]}
+    for i in range(30 if quick else 1000):
+        docs, t = [], ""
+        for _ in range(rng.randrange(0, 5)):
+            k = rng.randrange(4)
+            if k == 0 and t:
+                t = t[:-1]
+            elif k == 1:
+                t = t + rng.choice(PRINTABLE[:12])
+            elif k == 2:
+                t = t + rand_hostile(rng, 1)
+            docs.append([t, rng.choice([len(t), len(t), max(0, len(t) - 1), 0])])
+        c = {"kind": "dumb", "message": rand_ft(rng, 6) if rng.random() < 0.7 else rand_hostile(rng, 5), "docs": docs}
+        if i % 3 == 0:
+            c["wire"] = rand_wire(rng)
+        yield c
+    # print_formatted_text on a PlainTextOutput (text stream and binary streams)
+    for i in range(40 if quick else 1500):
+        c = {"kind": "printplain", "frags": rand_ft(rng, 8)}
+        if i % 2 == 0:
+            c["wire"] = rand_wire(rng)
+        yield c
+    # patch_stdout
+    for raw in (False, True):
+        yield {"kind": "proxy", "raw": raw, "text": "a\x1b[2J\x9b31m\udc9bb\n"}
+    for _ in range(30 if quick else 1000):
+        yield {"kind": "proxy", "raw": rng.random() < 0.3, "text": rand_hostile(rng, rng.randrange(0, 10))}
+
+
+def run_printplain(case):
+    from prompt_toolkit.output.plain_text import PlainTextOutput
+    from prompt_toolkit.renderer import print_formatted_text
+    w = case.get("wire")
+    if w is None:
+        stream = raw = io.StringIO()
+    else:
+        stream, raw = binary_stream(w["enc"], w["errors"])
+    o = PlainTextOutput(stream)
+    print_formatted_text(o, [(s, t) for s, t in case["frags"]], ui_style())
+    return raw.getvalue()
+
+
+def ml_printplain(case):
+    w = case.get("wire")
+    return ["printplain %s %s" % ("N" if w is None else codec_index(w["enc"]),
+                                  enc_list(case["frags"], lambda f: f"{enc_str(f[0])} {enc_str(f[1])}"))]
+
+
+def il_printplain(case):
+    r = run_printplain(case)
+    return ["t " + enc_str(r) if isinstance(r, str) else "b " + enc_bytes(r)]
+
+
+def or_printplain(case):
+    """PlainTextOutput adds no control sequence of its own (it does not escape either: not a terminal path)"""
+    r = run_printplain(case)
+    v = []
+    src = "".join(t for _, t in case["frags"])
+    if isinstance(r, bytes):
+        expect = "".join(t if ZWE in s else t.replace("\r", "").replace("\n", "\r\n") for s, t in case["frags"])
+        seen = check_wire("print_formatted_text(PlainTextOutput)", r, case["wire"]["enc"], expect, v)
+        if seen is None:
+            return v
+        r = seen
+    extra = [c for c in r if is_control(c) and c != "\r" and c not in src]
+    if extra or r.count("\x1b") > src.count("\x1b"):
+        v.append({"signature": "PlainTextOutput | control character that is not in the printed text",
+                  "msg": f"{case['frags']!r} -> {r!r}"})
+    return v
+
+
 # ------------------------------------------------------------------ dispatch
 KINDS = {
     "chars": (ml_chars, il_chars, or_chars),
@@ -963,6 +1864,17 @@ KINDS = {
     "render": (ml_render, il_render, or_render),
     "tok": (ml_tok, il_tok, lambda c: []),
     "dwidth": (ml_dwidth, il_dwidth, or_dwidth),
+    "gram": (ml_gram, il_gram, or_gram),
+    "calls": (ml_calls, il_calls, or_calls),
+    "renderer": (ml_renderer, il_renderer, or_renderer),
+    "dumb": (ml_dumb, il_dumb, or_dumb),
+    "proxy": (ml_proxy, il_proxy, or_proxy),
+    "printplain": (ml_printplain, il_printplain, or_printplain),
+    "enc": (ml_enc, il_enc, or_enc),
+    "encchars": (ml_encchars, il_encchars, or_encchars),
+    "decode": (ml_decode, il_decode, lambda c: []),
+    "flush": (ml_flush, il_flush, or_flush),
+    "out": (ml_out, il_out, or_out),
     "e2e_prompt": (lambda c: [], lambda c: [], e2e_prompt),
     "e2e_full": (lambda c: [], lambda c: [], e2e_full),
     "ast": (lambda c: [], lambda c: [], lambda c: ast_scan()),
@@ -1024,6 +1936,10 @@ def cases(tier, rng):
         for lo in range(0, 0x110000, step):
             yield {"kind": "chars", "range": [lo, lo + step], "style": STYLES[(lo // step) % len(STYLES)],
                    "cache": (lo // step) % 7 == 3}
+    if quick:
+        # the lone surrogates (Python characters that are not Unicode scalar values)
+        yield {"kind": "chars", "range": [0xD800, 0xDC00], "style": "class:a"}
+        yield {"kind": "chars", "range": [0xDC00, 0xE000], "style": "", "cache": True}
     # every mapped character with every style (style suffix logic)
     for st in STYLES:
         yield {"kind": "chars", "range": [0, 0x100], "style": st, "cache": True}
@@ -1051,22 +1967,134 @@ def cases(tier, rng):
         yield {"kind": "write", "ops": [chr(i) for i in range(lo, lo + 32)]}
     for _ in range(100 if quick else 3000):
         yield {"kind": "write", "ops": [rand_hostile(rng, rng.randrange(0, 12)) for _ in range(rng.randrange(1, 5))]}
-    # ---- print_formatted_text
-    for _ in range(150 if quick else 4000):
-        yield {"kind": "print", "frags": rand_ft(rng, 10)}
+    # ---- the byte level: flush_stdout / encode(..., "replace") / the terminal's decoder / _buffer
+    yield from gen_bytes(tier, rng)
+    # ---- print_formatted_text (a third of them on a real binary stream)
+    for i in range(150 if quick else 4000):
+        c = {"kind": "print", "frags": rand_ft(rng, 10)}
+        if i % 3 == 0:
+            c["wire"] = rand_wire(rng)
+        yield c
     # ---- Window._copy_body + _output_screen_diff + Vt100_Output
     yield from gen_small_render(tier)
-    for _ in range(600 if quick else 20000):
-        yield gen_rand_render(rng)
+    for i in range(600 if quick else 20000):
+        c = gen_rand_render(rng)
+        if i % 4 == 0:
+            c["wire"] = rand_wire(rng)
+        yield c
     # ---- the tokenizer the theorems use vs the oracle's tokenizer
     for _ in range(400 if quick else 20000):
         yield gen_tok(rng)
+    # ---- the output grammar (recognisers + greedy parser) vs an independent regex form
+    yield {"kind": "gram", "toks": list(GEN_SEQS) + [t[:i] for t in GEN_SEQS for i in range(len(t))],
+           "streams": ["".join(GEN_SEQS), "a" + "".join(GEN_SEQS[:5]) + "世"]}
+    for _ in range(200 if quick else 10000):
+        yield gen_gram(rng)
+    # ---- the other writers: emitters, titles, Renderer.reset/erase, dumb prompt, patch_stdout
+    yield from gen_out_writers(tier, rng)
     # ---- end to end
     for i in range(24 if quick else 300):
-        yield gen_e2e_prompt(rng, i)
+        c = gen_e2e_prompt(rng, i)
+        if i % 2 == 1:
+            c["wire"] = rand_wire(rng)
+        yield c
     for i in range(8 if quick else 100):
-        yield gen_e2e_full(rng, i)
+        c = gen_e2e_full(rng, i)
+        if i % 2 == 1:
+            c["wire"] = rand_wire(rng)
+        yield c
 
+
+
+# small-scope alphabet for the byte level: ASCII, lone surrogate (raw byte 0x9b after fsdecode), real C1 CSI,
+# wide, ESC, a Latin-1 letter, the euro sign (cp1252 byte 0x80), a non-BMP character
+SMALL_BYTES = ["a", "\udc9b", "\x9b", "世", "\x1b", "é", "€", "\U0001F600"]
+
+
+def gen_bytes(tier, rng):
+    import itertools
+    quick = tier == "quick"
+    names = codec_names()
+    # exhaustive: all strings over SMALL_BYTES up to length 2 (quick) / 3 x every codec x every error handler
+    # a real stream can be configured with
+    maxlen = 2 if quick else 3
+    texts = ["".join(t) for n in range(maxlen + 1) for t in itertools.product(SMALL_BYTES, repeat=n)]
+    for e in names:
+        for err in STREAM_ERRORS:
+            yield {"kind": "enc", "ops": [[e, err, t] for t in texts], "small": True}
+    # every code point through every codec (thorough) / U+0000-04FF, the surrogates, the code page's own
+    # repertoire and a random sample (quick); the error handler configured on the stream rotates
+    k = 0
+    for e in names + ["ANSI_X3.4-1968", "UTF-8", "latin-1"]:
+        if quick:
+            chunks = [list(range(0, 0x500)), list(range(0xD800, 0xE000, 7)) + [0xDC80 + i for i in range(0x80)],
+                      sorted(rng.randrange(0, 0x110000) for _ in range(1500))]
+            if e in names[1:]:
+                import gen_c10
+                chunks.append([cp for cp, _b in gen_c10.charmap_tables(e)[0]])
+            for ch in chunks:
+                yield {"kind": "encchars", "cps": ch, "enc": e, "errors": STREAM_ERRORS[k % len(STREAM_ERRORS)]}
+                k += 1
+        elif e in names:
+            step = 8192
+            for lo in range(0, 0x110000, step):
+                yield {"kind": "encchars", "range": [lo, lo + step], "enc": e,
+                       "errors": STREAM_ERRORS[k % len(STREAM_ERRORS)]}
+                k += 1
+    for _ in range(150 if quick else 5000):
+        yield {"kind": "enc", "ops": [[w["enc"], w["errors"], rand_hostile(rng, rng.randrange(0, 14))]
+                                      for w in [rand_wire(rng) for _ in range(4)]]}
+    # the terminal's decoder of the model vs CPython's decoder, on well-formed and ill-formed byte strings
+    for _ in range(150 if quick else 5000):
+        ops = []
+        for _ in range(6):
+            e = rng.choice(names)
+            ops.append([e, list(rand_bytes(rng))])
+        yield {"kind": "decode", "ops": ops}
+    # flush_stdout: which attributes the stream has, what `encoding` is, real and minimal streams
+    shapes = []
+    for he in (False, True):
+        for hb in (False, True):
+            for e in (None, "", "utf-8", "latin-1", "ascii", "cp1252"):
+                shapes.append((he, hb, e))
+    for i, (he, hb, e) in enumerate(shapes):
+        yield {"kind": "flush", "ops": [[he, hb, e, STREAM_ERRORS[(i + j) % len(STREAM_ERRORS)],
+                                         rand_hostile(rng, rng.randrange(0, 10)), False] for j in range(3)]}
+    for _ in range(40 if quick else 1000):
+        w = rand_wire(rng)
+        hb = rng.random() < 0.7
+        yield {"kind": "flush", "ops": [[True, hb, w["enc"], w["errors"], rand_hostile(rng, rng.randrange(0, 10)), True]]}
+    # the _buffer of Vt100_Output / PlainTextOutput: write / write_raw / flush sequences
+    for n in range(4):
+        for tup in itertools.product("wrf", repeat=n):
+            for vt in (True, False):
+                yield {"kind": "out", "vt": vt, "small": True,
+                       "ops": [["f"] if t == "f" else [t, rng.choice(["", "a\x1b[m", "\x1b", "\udc9bx", "世"])] for t in tup]}
+    for _ in range(60 if quick else 2000):
+        ops = []
+        for _ in range(rng.randrange(0, 10)):
+            t = rng.choice("wwrrf")
+            ops.append(["f"] if t == "f" else [t, rand_hostile(rng, rng.randrange(0, 5))])
+        yield {"kind": "out", "vt": rng.random() < 0.7, "ops": ops}
+
+
+def rand_bytes(rng):
+    k = rng.randrange(6)
+    if k == 0:
+        return rand_hostile(rng, rng.randrange(0, 8)).encode("utf-8", "surrogatepass")
+    if k == 1:
+        b = rand_hostile(rng, rng.randrange(1, 8)).encode("utf-8", "replace")
+        i = rng.randrange(0, len(b) + 1)
+        return b[:i] + bytes([rng.randrange(256)]) + b[i + rng.randrange(0, 2):]
+    if k == 2:
+        return bytes(rng.choice([0x80, 0x9b, 0xbf, 0xc0, 0xc1, 0xc2, 0xdf, 0xe0, 0xed, 0xef, 0xf0, 0xf4, 0xf5, 0xff,
+                                 0x41, 0x1b, 0xa0, 0x9f, 0x90, 0x8f]) for _ in range(rng.randrange(0, 7)))
+    if k == 3:
+        return rng.choice([b"\xc0\x9b", b"\xe0\x80\x9b", b"\xed\xb2\x9b", b"\xf4\x90\x80\x80", b"\xf0\x8f\xbf\xbf",
+                           b"\xe4\xb8", b"\xf0\x9f\x98", b"\xc2", b"\xef\xbf\xbf", b"\xf4\x8f\xbf\xbf",
+                           b"\xed\x9f\xbf\xee\x80\x80", b"\xe0\xa0\x80", b"\xf0\x90\x80\x80"]) + \
+            bytes(rng.randrange(256) for _ in range(rng.randrange(0, 3)))
+    return bytes(rng.randrange(256) for _ in range(rng.randrange(0, 10)))
 
 
 # small-scope alphabet for _copy_body: plain, wide, zero-width (merged), control (caret form, width 2),
@@ -1192,12 +2220,31 @@ def wc_edges():
 def case_text(case):
     k = case["kind"]
     if k == "chars":
-        return "".join(chr(cp) for cp in list(chunk_cps(case))[:300] if not is_sur(cp))
+        return "".join(chr(cp) for cp in list(chunk_cps(case))[:300])
     if k in ("str", "tok"):
         return case["s"]
+    if k == "calls":
+        return "".join(c[1] for c in case["ops"] if c[0] == "title")
+    if k == "dumb":
+        m = case["message"]
+        return (m if isinstance(m, str) else "".join(t for _, t in m)) + "".join(d[0] for d in case["docs"])
+    if k == "proxy":
+        return case["text"]
+    if k == "gram":
+        return "".join(case["toks"]) + "".join(case["streams"])
+    if k == "enc":
+        return "".join(t for _e, _err, t in case["ops"])
+    if k == "encchars":
+        return "".join(chr(cp) for cp in list(chunk_cps(case))[:300])
+    if k == "decode":
+        return "".join(bytes(b).decode("latin-1") for _e, b in case["ops"])
+    if k == "flush":
+        return "".join(op[4] for op in case["ops"])
+    if k == "out":
+        return "".join(op[1] for op in case["ops"] if len(op) > 1)
     if k in ("write", "dwidth"):
         return "".join(case["ops"])
-    if k == "print":
+    if k in ("print", "printplain"):
         return "".join(t for _, t in case["frags"])
     if k == "render":
         return "".join(t for fr in case["ops"] for cp in fr["copies"] for ln in cp["lines"] for _, t in ln)
@@ -1217,7 +2264,7 @@ def nontrivial(case):
     if case["kind"] == "ast":
         return True
     t = case_text(case)
-    return has_control(t) or "\xa0" in t
+    return has_control(t) or "\xa0" in t or any(is_sur(ord(ch)) for ch in t)
 
 
 def sample_view(case):
@@ -1225,19 +2272,35 @@ def sample_view(case):
         return dict(case, cps=case["cps"][:8] + [f"... {len(case['cps'])} code points"])
     if case["kind"] == "write":
         return dict(case, ops=case["ops"][:6])
+    if case["kind"] == "enc" and case.get("small"):
+        return dict(case, ops=case["ops"][:10] + [f"... {len(case['ops'])} texts: all strings over {len(SMALL_BYTES)} symbols"])
+    if case["kind"] == "encchars" and "cps" in case:
+        return dict(case, cps=case["cps"][:8] + [f"... {len(case['cps'])} code points"])
     if case["kind"] == "render" and case.get("small"):
         return dict(case, ops=case["ops"][:1] + [f"... {len(case['ops'])} frames: widths 1-4 x wrap off/on"])
     return case
 
 
 def distribution(cases_):
-    d = {"kind": {}, "code_points": 0, "control_chars_in_content": 0}
+    d = {"kind": {}, "code_points": 0, "control_chars_in_content": 0, "lone_surrogates_in_content": 0,
+         "code_points_encoded": 0, "on_binary_stream": 0, "stream_encodings": {}, "stream_error_handlers": {}}
     for c in cases_:
         d["kind"][c["kind"]] = d["kind"].get(c["kind"], 0) + 1
         if c["kind"] == "chars":
             d["code_points"] += len(chunk_cps(c))
+        elif c["kind"] == "encchars":
+            d["code_points_encoded"] += len(chunk_cps(c))
+            d["stream_encodings"][c["enc"]] = d["stream_encodings"].get(c["enc"], 0) + 1
+            d["stream_error_handlers"][c["errors"]] = d["stream_error_handlers"].get(c["errors"], 0) + 1
         else:
-            d["control_chars_in_content"] += sum(1 for ch in case_text(c) if is_control(ch))
+            t = case_text(c)
+            d["control_chars_in_content"] += sum(1 for ch in t if is_control(ch))
+            d["lone_surrogates_in_content"] += sum(1 for ch in t if is_sur(ord(ch)))
+        w = c.get("wire")
+        if w:
+            d["on_binary_stream"] += 1
+            d["stream_encodings"][w["enc"]] = d["stream_encodings"].get(w["enc"], 0) + 1
+            d["stream_error_handlers"][w["errors"]] = d["stream_error_handlers"].get(w["errors"], 0) + 1
     return d
 
 
